@@ -474,6 +474,121 @@ def run_grid(ctx: Ctx) -> None:
     ctx.sample({"fold_case": lines[len(lines) // 3], "model": model[len(lines) // 3]})
 
 
+def guard_boundary_cases(ctx: Ctx, max_int: int, max_str: int) -> list[tuple[str, Any, Any, tuple]]:
+    """operands whose *guard expression* (the operand-size test of commit f18fd55) is just below / at / just
+    above the bound: (op, left, right, folders).  All-ones operands make the result size equal the guard
+    expression, so a missing guard shows as a result larger than the declared bound."""
+    rng = ctx.rng
+    M, S = max_int, max_str
+
+    def num(bits: int, ones: bool = True, neg: bool = False) -> int:
+        if bits <= 0:
+            return 0
+        v = (1 << bits) - 1 if ones else 1 << (bits - 1)
+        return -v if neg else v
+
+    both = (0, 1)
+    cases: list[tuple[str, Any, Any, tuple]] = []
+    for d in (-1, 0, 1):
+        for bl in (1, 2, 17, M // 2, M - 2):
+            br = M + d - bl
+            cases.append(("*", num(bl), num(br), both))
+            cases.append(("*", num(br, ones=False, neg=True), num(bl, neg=rng.random() < 0.5), both))
+        cases.append(("*", True, num(M + d - 1), both))
+        for bl in (1, 2, 17, M // 2):
+            cases.append(("<<", num(bl), M + d - bl, both))
+            cases.append(("<<", num(bl, ones=False, neg=True), M + d - bl, both))
+        cases.append(("<<", True, M + d - 1, both))
+        for base in (1, -1, 2, 3, -3, 7, 5, 65535, 65537, num(40)):
+            bl = base.bit_length()
+            cases.append(("**", base, M // bl + d, both))
+        for ll in (0, 1, S // 2, S - 1):
+            cases.append(("+", "a" * ll, "b" * (S + d - ll), both))
+            cases.append(("+", b"a" * ll, b"\xff" * (S + d - ll), (1,)))
+        for unit in ("a", "ab", "\u00e9xy", "abcdefg"):
+            n = S // len(unit) + d
+            cases.append(("*", unit, n, both))
+            cases.append(("*", n, unit, both))
+            cases.append(("*", unit.encode("latin-1"), n, (1,)))
+            cases.append(("*", n, unit.encode("latin-1"), (1,)))
+    # corners: products that are small although an operand is large; counts outside ssize_t
+    cases += [("<<", 0, M + 5, both), ("**", 0, M + 5, both), ("**", 1, M + 1, both), ("**", -1, M + 2, both),
+              ("*", 0, num(M + 3), both), ("*", "", S + 7, both), ("*", S + 7, "", both), ("*", "ab", -(S + 1), both),
+              ("*", b"", S + 7, (1,)), ("*", "a", 2 ** 64, both), ("*", -(2 ** 70), "a", both),
+              ("*", b"a", 2 ** 64, (1,)), ("*", "", 2 ** 64, both), ("+", "", "", both),
+              ("*", True, "a" * S, both), ("*", "a" * (S + 1), True, both), ("*", "a" * (S + 1), False, both)]
+    return cases
+
+
+def run_guard_boundary(ctx: Ctx) -> None:
+    """the size guards of the folders (MAX_FOLDED_INT_BITS / MAX_FOLDED_STR_LENGTH): model vs real folder vs
+    CPython on operands around each bound; on a tree without the constants the same operands are used with
+    the bound 65536 (everything is folded, by model and code alike)."""
+    import mypy.constant_fold as cf
+    from mypy.constant_fold import constant_fold_binary_op
+    from mypyc.irbuild.constant_fold import constant_fold_binary_op_extended
+    live_int, live_str = getattr(cf, "MAX_FOLDED_INT_BITS", None), getattr(cf, "MAX_FOLDED_STR_LENGTH", None)
+    declared = isinstance(live_int, int) and isinstance(live_str, int)
+    M = live_int if isinstance(live_int, int) and 64 <= live_int <= 1 << 20 else 1 << 16
+    S = live_str if isinstance(live_str, int) and 64 <= live_str <= 1 << 20 else 1 << 16
+    ctx.coverage["fold_guard_bounds"] = {"MAX_FOLDED_INT_BITS": live_int, "MAX_FOLDED_STR_LENGTH": live_str,
+                                         "bounds_used_for_operands": [M, S]}
+    cases = guard_boundary_cases(ctx, M, S)
+    lines, meta = [], []
+    for op, a, b, folders in cases:
+        for ext in folders:
+            lines.append(f"G {ext} {op} {tok(a)} {tok(b)}")
+            meta.append((ext, op, a, b))
+    model = ctx.lean_driver(DRIVER, lines)
+    if len(model) != len(lines):
+        raise ToolFailure("fold driver: wrong number of output lines for the guard-boundary stream")
+    nd = 0
+    for (ext, op, a, b), mline in zip(meta, model):
+        try:
+            mfold, mpy, mbelow = mline.split(" ")
+            mfold, mpy, mbelow = mfold[5:], mpy[3:], mbelow[6:]
+        except ValueError:
+            raise ToolFailure(f"fold driver: bad output {mline[:200]!r}")
+        which = "mypyc" if ext else "mypy"
+        fn = constant_fold_binary_op_extended if ext else constant_fold_binary_op
+        real_c, real_raw = real_call(fn, op, a, b)
+        want = py_eval(PYOP[op], a, b)
+        short = f"{op} {describe(a)} {describe(b)}"
+        ctx.case(("G", ext, op, operand_class(a), operand_class(b), hash((tok(a), tok(b)))))
+        ctx.dist("fold_guard_side", f"{op}:{'below' if mbelow == '1' else 'above'}")
+        ctx.dist("fold_guard_real", f"{op}:{'declined' if real_c == 'none' else 'raised' if real_c.startswith('exc:') else 'folded'}")
+        if mpy != "notmodelled" and mpy != want:
+            raise ToolFailure(f"Python-semantics model disagrees with CPython on guard-boundary case {short}")
+        holds = property_check(ctx, which, "B", op, [a, b], real_c, real_raw, want)
+        # a tree that declares a bound must not fold past it
+        if declared and not real_c.startswith("exc:") and real_c != "none":
+            too_big = (op in ("*", "<<", "**") and type(real_raw) is int and real_raw.bit_length() > max(1, live_int)) or \
+                      (op in ("+", "*") and isinstance(real_raw, (str, bytes)) and len(real_raw) > live_str)
+            if too_big:
+                holds = False
+                size = real_raw.bit_length() if isinstance(real_raw, int) else len(real_raw)
+                report_once(ctx, {"sub": "fold", "class": "folded-value-exceeds-declared-bound", "op": op,
+                                  "folder": which, "result_type": type(real_raw).__name__},
+                            f"{which} folds {short} to a value of size {size} although the tree declares "
+                            f"MAX_FOLDED_INT_BITS={live_int} / MAX_FOLDED_STR_LENGTH={live_str}",
+                            {"sub": "fold", "folder": which, "kind": "G", "op": op,
+                             "operands_tok": [tok(a)[:60] + ("…" if len(tok(a)) > 60 else ""), tok(b)[:60]],
+                             "operands": [describe(a), describe(b)], "result_size": size})
+        if real_c != mfold and not real_c.startswith("exc:"):
+            nd += 1
+            ctx.count("disagreements_checked")
+            if holds:
+                pend(ctx, f"fold correspondence broken at a size guard: {which} folder gives "
+                          f"{real_c[:40]}, model {mfold[:40]} (model: {'below' if mbelow == '1' else 'above'} the guard) on {short}; "
+                          f"CPython gives {want[:40]}",
+                     {"sub": "fold", "broken": f"correspondence Driver/C12Fold `G` vs {which} folder (size guards)",
+                      "kind": "G", "folder": which, "op": op, "operands": [describe(a), describe(b)],
+                      "folder_result": real_c[:80], "model": mfold[:80], "model_below_guard": mbelow})
+    ctx.count("traces_validated_against_impl", len(lines))
+    ctx.coverage["fold_guard_boundary_cases"] = len(lines)
+    ctx.coverage["fold_guard_boundary_disagreements"] = nd
+
+
 def run_floats(ctx: Ctx) -> None:
     """float/complex operands: no Lean model; the real folder against CPython directly"""
     from mypy.constant_fold import constant_fold_binary_op, constant_fold_unary_op
@@ -757,6 +872,7 @@ def run(ctx: Ctx) -> None:
                 "exponents / left-shift counts fed to the real folder are bounded by 64 (F6, cost, is C20's)")
     before = len(ctx.violations)
     run_grid(ctx)
+    run_guard_boundary(ctx)
     run_floats(ctx)
     run_trees(ctx)
     run_end_to_end(ctx)
